@@ -186,7 +186,26 @@ static void OnTerminate()
 //------------------------------------------------------------------------------------------------
 // Sanitizer reports (sanitizer builds: stderr of the child is a file)
 //------------------------------------------------------------------------------------------------
-static std::string SummarizeReport(const std::string& textIn)
+static std::string SummarizeOne(const std::string& textIn);
+// fatal = the report that ended the process: it is the last one of the text (earlier ones are recovered alignment reports of
+// previous runs of the same child); otherwise the first report of the text
+static std::string SummarizeReport(const std::string& textIn, bool fatal = false)
+{
+	if (!fatal) return SummarizeOne(textIn);
+	size_t start = 0, p = 0;
+	while (true) {
+		const size_t a = textIn.find("ERROR: AddressSanitizer: ", p);
+		const size_t u = textIn.find("runtime error: ", p);
+		const size_t l = textIn.find("ERROR: LeakSanitizer: ", p);
+		const size_t m = std::min(a, std::min(u, l));
+		if (m == std::string::npos) break;
+		start = textIn.rfind('\n', m);
+		start = start == std::string::npos ? 0 : start + 1;
+		p = m + 10;
+	}
+	return SummarizeOne(textIn.substr(start));
+}
+static std::string SummarizeOne(const std::string& textIn)
 {
 	// Tokenises the first report of the text: kind (ASan error class, or "ubsan:<check>"), source file / line when the report
 	// carries one (UBSan always does), and the raw first lines for the replay file.  No judgement here.
@@ -654,7 +673,7 @@ static std::string SanitizerSummary(const std::string& path)
 	std::ifstream f(path, std::ios::binary);
 	std::stringstream ss;
 	ss << f.rdbuf();
-	return SummarizeReport(ss.str());
+	return SummarizeReport(ss.str(), true);
 }
 
 int main(int argc, char** argv)
@@ -705,8 +724,21 @@ int main(int argc, char** argv)
 	auto labelOf = [&](const Run& r, char* buf, size_t n) {
 		snprintf(buf, n, "\"i\":%u,\"t\":\"%s\",\"p\":\"%s\",\"m\":\"%s\"", r.input, targetsOfInput[r.input][r.target].c_str(), kPols[r.pol], g_media[r.medium].c_str());
 	};
+	// a defect that makes many runs hang must not make the whole batch take hours: after `maxHangs` watchdog hits the remaining
+	// runs of this process are logged as "NotRun" (the check then reports the hangs and states the incomplete coverage)
+	const unsigned maxHangs = getenv("RB_MAX_HANGS") ? static_cast<unsigned>(atoi(getenv("RB_MAX_HANGS"))) : 4;
+	unsigned hangs = 0;
 	while (next < total)
 	{
+		if (hangs >= maxHangs)
+		{
+			for (size_t r = next; r < total; ++r) {
+				char label[256];
+				labelOf(runs[r], label, sizeof label);
+				fprintf(stdout, "{%s,\"o\":\"NotRun\",\"x\":\"\",\"acc\":\"%s\",\"pk\":0,\"tb\":0,\"na\":0}\n", label, RB_ACC);
+			}
+			break;
+		}
 		int fds[2];
 		if (pipe(fds) != 0) return 3;
 		fflush(stdout);
@@ -771,6 +803,7 @@ int main(int argc, char** argv)
 		if (!any) last = next;
 		if (WIFEXITED(status) && WEXITSTATUS(status) == 46) { next = static_cast<size_t>(last) + 1; continue; }     // input finished, next child
 		const bool selfReported = WIFEXITED(status) && (WEXITSTATUS(status) == 42 || WEXITSTATUS(status) == 43 || WEXITSTATUS(status) == 44);
+		if (WIFEXITED(status) && WEXITSTATUS(status) == 43) ++hangs;
 		if (!selfReported)
 		{
 			char label[256];
